@@ -50,7 +50,7 @@ static void evt(int kind, void *addr, int mo, unsigned long val)
 	}
 }
 
-struct cds_list_head H, P, N, X, O;	/* head / predecessor, successor, new node, old node */
+struct cds_list_head H, P, N, X, O, STALE;	/* head / predecessor, successor, new node, old node */
 unsigned long in_shape;
 
 /* a circular list  ... P <-> N ...  (P may be the head; P == N is the empty list when in_shape == 0) */
@@ -67,6 +67,7 @@ void h_list_add_rcu(void)
 {
 	struct cds_list_head *succ;
 	mk_pair(); succ = SUCC_OF_P;
+	X.next = X.prev = &STALE;	/* a recycled node: its links still point into the list it was removed from */
 	G_watch = &P.next; G_new_next = (void **) &X.next; G_expect_next = succ;
 	cds_list_add_rcu(&X, &P);
 	VERIF_ASSERT(G_pub_stores == 1 && G_other_prim_stores == 0, "list_add_rcu: exactly one store to the reader-visible next pointer");
@@ -79,7 +80,7 @@ void h_list_add_tail_rcu(void)
 {
 	/* head = N's successor H when non-empty; insert before head, i.e. after head->prev */
 	struct cds_list_head *head, *last;
-	mk_pair();
+	mk_pair(); X.next = X.prev = &STALE;
 	head = (in_shape & 1) ? &H : &P; last = head->prev;
 	G_watch = &last->next; G_new_next = (void **) &X.next; G_expect_next = head;
 	cds_list_add_tail_rcu(&X, head);
@@ -104,17 +105,19 @@ void h_list_replace_rcu(void)
 {
 	P.next = &O; O.prev = &P; O.next = &N; N.prev = &O; N.next = &P; P.prev = &N;
 	G_pub_stores = G_other_prim_stores = 0; G_watch = &P.next; G_new_next = (void **) &X.next; G_expect_next = &N;
+	X.next = X.prev = &STALE;
 	cds_list_replace_rcu(&O, &X);
 	VERIF_ASSERT(G_pub_stores == 1 && G_other_prim_stores == 0 && G_pub_mo >= CMM_RELEASE && G_pub_ok, "list_replace_rcu: one release store, new node linked to the successor before publication");
 	VERIF_ASSERT(P.next == &X && X.next == &N && X.prev == &P && N.prev == &X, "list_replace_rcu: sequential result");
 	VERIF_ASSERT(O.next == &N, "list_replace_rcu: the replaced node's next is left intact");
 }
-struct cds_hlist_head HH; struct cds_hlist_node HN, HX, HO;
+struct cds_hlist_head HH; struct cds_hlist_node HN, HX, HO, HSTALE;
 void h_hlist_add_head_rcu(void)
 {
 	VIN(unsigned long, in_shape);
 	HH.next = (in_shape & 1) ? &HN : 0; HN.prev = (struct cds_hlist_node *) &HH; HN.next = 0;
 	G_pub_stores = G_other_prim_stores = 0; G_watch = &HH.next; G_new_next = (void **) &HX.next; G_expect_next = HH.next;
+	HX.next = HX.prev = &HSTALE;	/* a recycled node (hlist_del_rcu leaves next intact): stale links, also when the list is empty */
 	cds_hlist_add_head_rcu(&HX, &HH);
 	VERIF_ASSERT(G_pub_stores == 1 && G_other_prim_stores == 0 && G_pub_mo >= CMM_RELEASE && G_pub_ok, "hlist_add_head_rcu: one release store, new node linked before publication");
 	VERIF_ASSERT(HH.next == &HX && HX.next == ((in_shape & 1) ? &HN : 0) && HX.prev == (struct cds_hlist_node *) &HH && (!(in_shape & 1) || HN.prev == &HX), "hlist_add_head_rcu: sequential result");
@@ -137,7 +140,7 @@ void h_hlist_del_rcu(void)
 /* O2: readers under an updater                                                                      */
 /* ------------------------------------------------------------------------------------------------ */
 struct item { long value; struct cds_hlist_node hn; struct cds_list_head ln; };	/* link members are NOT first */
-struct item I[3], IX;
+struct item I[3], IX, ISTALE;
 struct cds_hlist_head RH; struct cds_list_head RL;
 unsigned long G_env_on, G_ops, G_deleted[3], G_added, G_kind;	/* G_kind: 0 hlist, 1 list */
 unsigned long G_n;
@@ -151,7 +154,7 @@ static void env_sub(void)
 		G_deleted[k] = 1; G_ops++; return; }
 	ENV_DEL(0) ENV_DEL(1) ENV_DEL(2)
 	if (a == 2 && !G_added) {
-		IX.value = 100;
+		IX.value = 100; IX.hn.next = IX.hn.prev = &ISTALE.hn; IX.ln.next = IX.ln.prev = &ISTALE.ln;	/* recycled item with stale links */
 		if (G_kind == 0) cds_hlist_add_head_rcu(&IX.hn, &RH); else cds_list_add_rcu(&IX.ln, &RL);
 		G_added = 1; G_ops++;
 	}
